@@ -1994,6 +1994,142 @@ def _rule5(ctx, rep):
         )
 
 
+_MSG_FIELD = {'jid': 'jobid', 'rid': 'runid', 'tim': 'timing', 'target': 'target', 'inc': 'incarnation'}
+# what a reply must carry of the unit it answers: parameter of message.make -> field of the task message it comes from
+_REPLY_NEEDS = {'jid': 'jobid', 'rid': 'runid', 'tim': 'timing', 'inc': 'target'}
+
+
+class _Identity(Flow):
+    """which locals of a worker hold the received task message (all its fields) and which hold a message made in place
+    (only the fields it was given, each traced back to the task message).  state: frozenset of (name, kind) with kind =
+    ('task', overridden fields) | ('made', fields that carry the task's value)"""
+
+    def __init__(self, prog, f):
+        super().__init__()
+        self.prog, self.f = prog, f
+        self.replies = {}  # id(call) -> [call, {param: set of verdicts}]
+
+    @staticmethod
+    def _get(st, name):
+        for k, v in st:
+            if k == name:
+                return v
+        return None
+
+    @staticmethod
+    def _set(st, name, kind):
+        out = {(k, v) for k, v in st if k != name}
+        if kind is not None:
+            out.add((name, kind))
+        return frozenset(out)
+
+    def _field_ok(self, e, st, want):
+        """expression e is field `want` of the task message (directly or through a message made from it)"""
+        if isinstance(e, ast.Attribute) and isinstance(e.value, ast.Name):
+            k = self._get(st, e.value.id)
+            if k is None:
+                return False
+            if k[0] == 'task':
+                return e.attr == want and want not in k[1]
+            if k[0] == 'made':
+                return (e.attr, want) in k[1]
+        return False
+
+    def _kind(self, v, st):
+        if isinstance(v, ast.Name):
+            return self._get(st, v.id)
+        if isinstance(v, ast.Call):
+            sym = self.prog.callee(v, self.f) or ''
+            if sym.endswith('message.receive') or sym.endswith('message.loads') or sym.endswith('pickle.loads'):
+                return ('task', frozenset())
+            if isinstance(v.func, ast.Attribute) and v.func.attr == '_replace' and isinstance(v.func.value, ast.Name):
+                k = self._get(st, v.func.value.id)
+                if k is not None and k[0] == 'task':
+                    return ('task', k[1] | frozenset(kw.arg for kw in v.keywords if kw.arg))
+            if sym == MAKE:
+                ok = set()
+                for kw in v.keywords:
+                    fld = _MSG_FIELD.get(kw.arg)
+                    if fld is None:
+                        continue
+                    for want in set(_MSG_FIELD.values()):
+                        if self._field_ok(kw.value, st, want):
+                            ok.add((fld, want))
+                typ = next((kw.value for kw in v.keywords if kw.arg == 'typ'), None)
+                return ('made', frozenset(ok), (self.prog.resolve_in(typ, self.f) if typ is not None else None) or '?')
+        return None
+
+    def on_test(self, e, st):
+        # <made message>.type == / != <Type member>: a message made in place has the type it was given
+        if isinstance(e, ast.Compare) and len(e.ops) == 1 and isinstance(e.ops[0], (ast.Eq, ast.NotEq, ast.Is, ast.IsNot)):
+            for a, b in ((e.left, e.comparators[0]), (e.comparators[0], e.left)):
+                if isinstance(a, ast.Attribute) and a.attr == 'type' and isinstance(a.value, ast.Name):
+                    k = self._get(st, a.value.id)
+                    want = self.prog.resolve_in(b, self.f) if isinstance(b, (ast.Name, ast.Attribute)) else None
+                    if k is not None and k[0] == 'made' and k[2] != '?' and want:
+                        same = k[2] == want
+                        if isinstance(e.ops[0], (ast.NotEq, ast.IsNot)):
+                            same = not same
+                        return ((st,), ()) if same else ((), (st,))
+        return (st,), (st,)
+
+    def on_stmt(self, s, st):
+        if isinstance(s, ast.Assign) and len(s.targets) == 1:
+            t = s.targets[0]
+            if isinstance(t, ast.Name):
+                return (self._set(st, t.id, self._kind(s.value, st)),)
+            if isinstance(t, (ast.Tuple, ast.List)) and isinstance(s.value, ast.Call):
+                # iid, myid, job = sqs_pop(): the popped job is the task message
+                sym = self.prog.callee(s.value, self.f) or ''
+                for el in t.elts:
+                    if isinstance(el, ast.Name):
+                        st = self._set(st, el.id, ('task', frozenset()) if sym.endswith('sqs_pop') and el is t.elts[-1] else None)
+                return (st,)
+        return (st,)
+
+    def on_call(self, call, st):
+        if (self.prog.callee(call, self.f) or '') == MAKE:
+            typ = next((k.value for k in call.keywords if k.arg == 'typ'), None)
+            if typ is not None and (self.prog.resolve_in(typ, self.f) or '') == RESP:
+                rec = self.replies.setdefault(id(call), [call, {}])
+                for param, want in _REPLY_NEEDS.items():
+                    arg = next((k.value for k in call.keywords if k.arg == param), None)
+                    rec[1].setdefault(param, set()).add(arg is not None and self._field_ok(arg, st, want))
+        return (st,)
+
+
+def _rule6(ctx, rep):
+    """added after seeded change C05-10: the cloud worker built its register message with message.make instead of
+    job._replace(...); the invalid-data reply, which reads run id and timing from that local, then carried None and
+    schedule.complete raised before anything was withdrawn or recorded"""
+    prog = ctx.prog
+    with rep.rule(
+        'R-C05-6',
+        "every reply a worker makes carries the job id, run id, timing record and target of the task message it answers (each argument is that field of the received message, directly or through a message made from it)",
+        floor=6,
+        breaks='the farm cannot apply the reply to the unit it belongs to: complete() raises or books another unit, the failed target is not withdrawn and nothing is recorded',
+    ) as r:
+        for q in ('dawgie.pl.worker.cluster.execute', 'dawgie.pl.worker.aws.execute'):
+            f = prog.nfunc(q)
+            rep.analysed(f)
+            fl = _Identity(prog, f)
+            fl.run(f.node, frozenset())
+            seen = {}
+            for _id, (call, verdicts) in sorted(fl.replies.items(), key=lambda kv: (kv[1][0].lineno, kv[1][0].col_offset)):
+                r.instance()
+                bad = sorted(p for p, vs in verdicts.items() if False in vs)
+                suc = norm(next((k.value for k in call.keywords if k.arg == 'suc'), ast.Constant(value='?')))
+                seen[suc] = seen.get(suc, 0) + 1
+                r.check(
+                    not bad,
+                    f'{q}:reply[suc={suc}]#{seen[suc]}:identity',
+                    where(f, call),
+                    'job id, run id, timing and target are those of the received task',
+                    f'the reply made here takes {", ".join(f"{p}=" + norm(next((k.value for k in call.keywords if k.arg == p), ast.Constant(value=None)))[:30] for p in bad)} from something that does not hold the '
+                    f'{"/".join(_REPLY_NEEDS[p] for p in bad)} of the task message being answered (on some path)',
+                )
+
+
 def check(ctx):
     rep = Report(
         PID,
@@ -2023,6 +2159,7 @@ def check(ctx):
     _rule3(ctx, rep, setup)
     _rule4(ctx, rep)
     _rule5(ctx, rep)
+    _rule6(ctx, rep)
     from . import shared
 
     shared.borrow(ctx, rep, [
@@ -2063,6 +2200,10 @@ _SETTLE = (
 _COMPLETE_CALL = 'dawgie.pl.schedule.complete(job, msg.runid, inc, msg.timing, state)\n\n            '
 
 VARIANTS = [
+    V('aws register message made from scratch', 'B', 'pl/worker/aws.py', 'execute', 'm = job._replace( type=dawgie.pl.message.Type.register, incarnation=inc, revision=rev )', 'm = dawgie.pl.message.make(typ=dawgie.pl.message.Type.register, inc=inc, jid=job.jobid, rev=rev, target=job.target)', 'R-C05-6'),
+    V('cluster failure reply carries the job id as run id', 'B', 'pl/worker/cluster.py', 'execute', 'rid=m.runid,', 'rid=m.jobid,', 'R-C05-6', occurrence=1),
+    V('aws register message made from scratch with run id and timing', 'N', 'pl/worker/aws.py', 'execute', 'm = job._replace( type=dawgie.pl.message.Type.register, incarnation=inc, revision=rev )', 'm = dawgie.pl.message.make(typ=dawgie.pl.message.Type.register, inc=inc, jid=job.jobid, rev=rev, target=job.target, rid=job.runid, tim=job.timing)', None),
+
     V('busy cleanup deletes the timing unguarded', 'B', _FARM, 'Hand._res', 'if done in _time:\n                del _time[done]', 'del _time[done]', 'R-C05-5'),
     V('busy cleanup with membership loop', 'N', _FARM, 'Hand._res', 'while 0 < _busy.count(done):', 'while done in _busy:', None),
     V('cluster worker catch-all narrowed to Exception', 'B', _CL, 'execute', 'except:  # noqa: E722', 'except Exception:', 'R-C05-1'),
